@@ -32,14 +32,67 @@ type vfC13E2ERun struct {
 	classes  []string
 	hostIdx  map[string]int // connect address -> index in offering order
 	offered  []string
-	natt     int
+	natt     map[int]int // per execution
+	total    int
 	polName  string
-	lastAid  int
 	classOf  map[int]string
 	maxTries int
+
+	gids      map[int64]int // goroutine -> execution (numbered by first iterator call)
+	execOfH   map[int]int   // host index -> execution that picked it last
+	pending   map[int]int   // execution -> attempt the node has seen and the driver has not reported yet
+	observer  bool          // "end" events come from the Query/BatchObserver callback
+	delay     time.Duration // the node answers its first request only after this long
+	nodeDone  chan struct{} // closed when the delayed answer has been sent
+	ctx       context.Context
+	cancelLog bool
 }
 
-var vfC13E2ERuns sync.Map // statement id -> *vfC13E2ERun
+func (r *vfC13E2ERun) execLocked() int {
+	g := vfC13Gid()
+	e, ok := r.gids[g]
+	if !ok {
+		e = len(r.gids) + 1
+		r.gids[g] = e
+	}
+	return e
+}
+
+// the caller's deadline is noted at the first observation of its expiry (see vfC13Run.noteExpiredLocked)
+func (r *vfC13E2ERun) noteExpiredLocked() {
+	if r.ctx != nil && !r.cancelLog && r.ctx.Err() != nil {
+		r.cancelLog = true
+		r.log = append(r.log, vfC13Ev{Ev: "cancel", X: "deadline"})
+	}
+}
+
+// driver-side report of an attempt (public observer API): the attempt the node saw ends, or - if
+// the node saw none - the attempt was refused before the wire (context already done)
+func (r *vfC13E2ERun) observed(host *HostInfo, err error) {
+	r.mu.Lock()
+	defer r.mu.Unlock()
+	e := r.execLocked()
+	class, _ := vfC13E2EErr(err)
+	if class == "canceled" || class == "deadline" {
+		r.noteExpiredLocked()
+	}
+	h := r.hostIdx[host.ConnectAddress().String()]
+	aid, ok := r.pending[e]
+	if !ok {
+		r.natt[e]++
+		aid = 10*e + r.natt[e]
+		r.log = append(r.log, vfC13Ev{Ev: "start", E: e, H: h, N: aid, X: "refused"})
+	}
+	delete(r.pending, e)
+	r.log = append(r.log, vfC13Ev{Ev: "end", E: e, H: h, N: aid, X: class})
+}
+
+type vfC13E2EObs struct{ r *vfC13E2ERun }
+
+func (o *vfC13E2EObs) ObserveQuery(_ context.Context, q ObservedQuery) { o.r.observed(q.Host, q.Err) }
+func (o *vfC13E2EObs) ObserveBatch(_ context.Context, b ObservedBatch) { o.r.observed(b.Host, b.Err) }
+
+var vfC13E2ERuns sync.Map   // statement id -> *vfC13E2ERun
 var vfC13E2EByStmt sync.Map // ExecutableQuery -> *vfC13E2ERun
 
 func vfC13E2EIdOf(stmt string) int {
@@ -71,18 +124,34 @@ func vfC13E2EHandler(addr string) func(nc *vfNodeConn, f *vfFrame, q *vfRequest)
 		}
 		r := v.(*vfC13E2ERun)
 		r.mu.Lock()
-		r.natt++
-		aid := 10 + r.natt
-		r.lastAid = aid
 		h := r.hostIdx[addr]
-		r.log = append(r.log, vfC13Ev{Ev: "start", E: 1, H: h, N: aid, X: "sent"})
+		e := r.execOfH[h]
+		r.natt[e]++
+		r.total++
+		aid := 10*e + r.natt[e]
+		r.log = append(r.log, vfC13Ev{Ev: "start", E: e, H: h, N: aid, X: "sent"})
 		class := r.classes[r.rng.Intn(len(r.classes))]
-		if r.rng.Intn(4) == 0 || r.natt >= r.maxTries {
+		if r.rng.Intn(4) == 0 || r.total >= r.maxTries {
 			class = "ok"
 		}
 		r.classOf[aid] = class
-		r.log = append(r.log, vfC13Ev{Ev: "end", E: 1, H: h, N: aid, X: class})
+		delay := time.Duration(0)
+		if r.total == 1 {
+			delay = r.delay
+		}
+		if r.observer {
+			r.pending[e] = aid
+		}
 		r.mu.Unlock()
+		if delay > 0 {
+			time.Sleep(delay) // a slow node: the caller's deadline / the speculation timer comes first
+			defer close(r.nodeDone)
+		}
+		if !r.observer {
+			r.mu.Lock()
+			r.log = append(r.log, vfC13Ev{Ev: "end", E: e, H: h, N: aid, X: class})
+			r.mu.Unlock()
+		}
 		msg := fmt.Sprintf("vfc13:%s:%d", class, aid)
 		cl := func(w *vfW) *vfW { return w.Short(int(Quorum)) }
 		switch class {
@@ -126,8 +195,10 @@ func vfC13E2EErr(err error) (class string, aid int) {
 		return "noconn", 0
 	case ErrUnknownRetryType:
 		return "unknownretry", 0
-	case context.Canceled, context.DeadlineExceeded:
+	case context.Canceled:
 		return "canceled", 0
+	case context.DeadlineExceeded:
+		return "deadline", 0
 	}
 	return "other", 0
 }
@@ -148,6 +219,7 @@ func (p *vfC13E2EPolicy) Pick(q ExecutableQuery) NextHost {
 		r.mu.Lock()
 		defer r.mu.Unlock()
 		h := 0
+		e := r.execLocked()
 		if sh != nil && sh.Info() != nil {
 			a := sh.Info().ConnectAddress().String()
 			if _, seen := r.hostIdx[a]; !seen {
@@ -155,8 +227,9 @@ func (p *vfC13E2EPolicy) Pick(q ExecutableQuery) NextHost {
 				r.hostIdx[a] = len(r.offered)
 			}
 			h = r.hostIdx[a]
+			r.execOfH[h] = e
 		}
-		r.log = append(r.log, vfC13Ev{Ev: "pick", E: 1, H: h})
+		r.log = append(r.log, vfC13Ev{Ev: "pick", E: e, H: h})
 		return sh
 	}
 }
@@ -174,7 +247,7 @@ func (w *vfC13E2ERT) Attempt(q RetryableQuery) bool {
 		x = "yes"
 	}
 	w.r.mu.Lock()
-	w.r.log = append(w.r.log, vfC13Ev{Ev: "allow", E: 1, N: n, X: x})
+	w.r.log = append(w.r.log, vfC13Ev{Ev: "allow", E: w.r.execLocked(), N: n, X: x})
 	w.r.mu.Unlock()
 	return ans
 }
@@ -188,7 +261,7 @@ func (w *vfC13E2ERT) GetRetryType(err error) RetryType {
 		d = wd
 	}
 	w.r.mu.Lock()
-	w.r.log = append(w.r.log, vfC13Ev{Ev: "decide", E: 1, X: vfC13DecisionName(d), Y: class})
+	w.r.log = append(w.r.log, vfC13Ev{Ev: "decide", E: w.r.execLocked(), X: vfC13DecisionName(d), Y: class})
 	w.r.mu.Unlock()
 	return d
 }
@@ -252,8 +325,12 @@ func TestVfC13E2E(t *testing.T) {
 	rng := rand.New(rand.NewSource(seed*7919 + 13))
 	for i := 0; i < n; i++ {
 		id := base + i + 1
-		r := &vfC13E2ERun{id: id, rng: rand.New(rand.NewSource(rng.Int63())), hostIdx: map[string]int{}, classOf: map[int]string{}, maxTries: 12}
+		r := &vfC13E2ERun{id: id, rng: rand.New(rand.NewSource(rng.Int63())), hostIdx: map[string]int{}, classOf: map[int]string{},
+			maxTries: 12, natt: map[int]int{}, gids: map[int64]int{}, execOfH: map[int]int{}, pending: map[int]int{}}
 		cfgm := vfC13Cfg{K: 0, Idem: rng.Intn(4) != 0, Allow: []int{}, Hosts: []string{}}
+		// scenario: plain / the caller's deadline expires while the (slow) first node has not answered /
+		// a statement that is NOT idempotent with a speculative policy and a slow first node
+		scen := []string{"plain", "plain", "plain", "plain", "plain", "plain", "deadline", "specnonidem"}[rng.Intn(8)]
 		pols := []string{"none", "simple", "expo", "downgrade", "script"}
 		r.polName = pols[rng.Intn(len(pols))]
 		var real RetryPolicy
@@ -295,14 +372,33 @@ func TestVfC13E2E(t *testing.T) {
 		}
 		stmt := []string{"query", "batch"}[rng.Intn(2)]
 		observer := rng.Intn(2) == 0
-		obs := &vfC13Obs{}
+		var spec SpeculativeExecutionPolicy
+		ctx := context.Background()
+		cancel := func() {}
+		switch scen {
+		case "deadline":
+			observer = true // the driver-side end of the attempt is seen through the observer
+			r.delay = 6 * time.Millisecond
+			ctx, cancel = context.WithTimeout(ctx, 1500*time.Microsecond)
+			r.ctx = ctx
+		case "specnonidem":
+			cfgm.Idem = false
+			cfgm.K = 1
+			r.delay = 3 * time.Millisecond
+			spec = &SimpleSpeculativeExecution{NumAttempts: 1, TimeoutDelay: 300 * time.Microsecond}
+		}
+		r.observer = observer
+		r.nodeDone = make(chan struct{})
+		obs := &vfC13E2EObs{r: r}
 		vfC13E2ERuns.Store(id, r)
 		var rerr error
 		text := fmt.Sprintf("vfc13 %d", id)
+		entries := ""
 		if stmt == "query" {
-			q := s.Query(text).RetryPolicy(rt).Idempotent(cfgm.Idem).Consistency(Quorum)
-			if rt == nil {
-				q.rt = nil // RetryPolicy(nil interface value of a nil pointer) must stay a nil interface
+			// idempotence comes from the real statement: Query.Idempotent
+			q := s.Query(text).RetryPolicy(rt).Idempotent(cfgm.Idem).Consistency(Quorum).WithContext(ctx)
+			if spec != nil {
+				q.SetSpeculativeExecutionPolicy(spec)
 			}
 			if observer {
 				q.Observer(obs)
@@ -311,32 +407,54 @@ func TestVfC13E2E(t *testing.T) {
 			rerr = q.Iter().Close()
 			vfC13E2EByStmt.Delete(ExecutableQuery(q))
 		} else {
-			b := s.NewBatch(UnloggedBatch)
-			b.Entries = []BatchEntry{{Stmt: text, Idempotent: cfgm.Idem}, {Stmt: text + " b", Idempotent: cfgm.Idem}}
+			// ... or from the per-entry flags of a real Batch: all / none / mixed
+			b := s.NewBatch(UnloggedBatch).WithContext(ctx)
+			b.Entries, entries = vfC13Entries(cfgm.Idem, rng.Intn(4))
+			for k := range b.Entries {
+				b.Entries[k].Stmt = fmt.Sprintf("%s e%d", text, k)
+			}
 			b.Cons = Quorum
 			b.rt = nil
 			if rt != nil {
 				b.RetryPolicy(rt)
 			}
+			if spec != nil {
+				b.SpeculativeExecutionPolicy(spec)
+			}
+			b.observer = nil
 			if observer {
 				b.Observer(obs)
-			} else {
-				b.observer = nil
 			}
 			vfC13E2EByStmt.Store(ExecutableQuery(b), r)
 			rerr = s.ExecuteBatch(b)
 			vfC13E2EByStmt.Delete(ExecutableQuery(b))
 		}
+		cancel()
+		if r.delay > 0 {
+			r.mu.Lock()
+			seen := r.total > 0
+			r.mu.Unlock()
+			if seen { // let the slow node finish before the next statement uses its connection
+				select {
+				case <-r.nodeDone:
+				case <-time.After(5 * time.Second):
+				}
+			}
+			time.Sleep(200 * time.Microsecond) // speculative stragglers, if the code started any
+		}
 		vfC13E2ERuns.Delete(id)
 		r.mu.Lock()
 		class, ea := vfC13E2EErr(rerr)
+		if class == "canceled" || class == "deadline" {
+			r.noteExpiredLocked()
+		}
 		r.log = append(r.log, vfC13Ev{Ev: "return", N: -1, H: ea, X: class})
 		// hosts the round robin did not get to offer
 		for len(r.offered) < H {
 			r.offered = append(r.offered, "ok")
 		}
 		begin := vfC13Begin{Ev: "begin", Id: id, Hosts: r.offered, Polkind: cfgm.Polkind, Poln: cfgm.Poln, Allow: cfgm.Allow,
-			K: 0, Idem: cfgm.Idem, Policy: r.polName, Mode: "e2e", Stmt: stmt, Obs: observer}
+			K: cfgm.K, Idem: cfgm.Idem, Policy: r.polName, Mode: "e2e:" + scen, Stmt: stmt, Obs: observer, Entries: entries}
 		vfC13Write(w, begin, r.log)
 		sum := vfC13Summary{Id: id, Mode: "e2e", Policy: r.polName, Events: len(r.log)}
 		r.mu.Unlock()
